@@ -255,12 +255,60 @@ func c09SetupRef(rf *zn.Ref) {
 }
 
 type c09Case struct {
+	Repeat int       `json:"handled_faults_in_one_run,omitempty"` // > 0: the repetition family (Kind = P.Kind)
 	P      c09Params `json:"params"`
 	Source string    `json:"source,omitempty"`
 	Ext    string    `json:"module_source,omitempty"`
 }
 
 var c09Dir string
+
+// c09RepeatCounts: how many faults are raised and handled, one after the other, in ONE run
+var c09RepeatCounts = []int{1, 2, 10, 100, 1000, 5000, 20000}
+
+// c09Repeat: a method raises (kind) and handles N times in a row; afterwards ordinary
+// expressions still have their values, every block has ended and no call is left open.
+func c09Repeat(kind, n int) *mc.Failure {
+	raise := zn.Render(&zn.Program{Body: c09Raise(kind)}, nil)
+	class := c09ClassOf(kind)
+	pre := ""
+	if kind == 3 {
+		pre = "导入《@JSON》\n"
+	}
+	if kind == 1 {
+		pre += "定义错：\n    其内容 = “”\n如何新建错？\n    输入M\n    其内容 = M\n"
+	}
+	var body strings.Builder
+	for _, ln := range strings.Split(strings.TrimRight(raise, "\n"), "\n") {
+		body.WriteString("    " + ln + "\n")
+	}
+	src := pre + "如何险？\n    输入参\n    令局 = {参 + 1} * 2\n" + body.String() + "    输出1\n    拦截" + class + "：\n        输出-1\n" +
+		"令次 = 0\n令果 = 0\n每当次 < " + fmt.Sprint(n) + "：\n    次 = 次 + 1\n    果 = 果 + （险：次）\n输出【次，果，1 + 1，{2 * 3} + 4，（险：0）】"
+	cs := mc.J(c09Case{Repeat: n, P: c09Params{Kind: kind}, Source: src})
+	got, vm := zn.RunRealVM(src, nil)
+	if got.Panic != "" {
+		return &mc.Failure{Kind: "panic", Bucket: "repeat:" + c09Kinds[kind], Case: cs, Observed: got.Panic, Detail: got.Stack}
+	}
+	want := zn.Canon(&zn.LV{Items: []zn.V{float64(n), float64(-n), float64(2), float64(10), float64(-1)}})
+	if got.Err != nil || got.Val != want {
+		obs := "value " + got.Val
+		if got.Err != nil {
+			obs = fmt.Sprintf("%s error %d %s", got.Err.Kind, got.Err.Code, clipS(got.Err.Msg, 200))
+		}
+		return &mc.Failure{Kind: "mismatch", Bucket: "repeat:" + c09Kinds[kind], Case: cs, Expected: fmt.Sprintf("after %d handled faults: %s", n, want), Observed: obs}
+	}
+	if vm != nil {
+		if d := vm.VerifCallDepth(); d != 0 {
+			return &mc.Failure{Kind: "mismatch", Bucket: "repeat:" + c09Kinds[kind], Case: cs, Expected: "call stack empty after the run", Observed: fmt.Sprintf("%d frames left", d)}
+		}
+		for _, st := range vm.VerifScopeStats() {
+			if st.Depth != 0 {
+				return &mc.Failure{Kind: "mismatch", Bucket: "repeat:" + c09Kinds[kind], Case: cs, Expected: "all blocks ended", Observed: fmt.Sprintf("module %d depth %d live %d", st.ModuleID, st.Depth, st.Live)}
+			}
+		}
+	}
+	return nil
+}
 
 func c09Check(p c09Params) *mc.Failure {
 	main, ext := c09Build(p)
@@ -427,7 +475,7 @@ func init() {
 	mc.Register(&mc.Check{
 		ID:    "C09",
 		Level: "exploration",
-		Rule:  "E1 exhaustive over the product: raise kind {抛出异常, 抛出 custom type, failing built-in (取样 out of range), failing library call (解析JSON), 1 / 0, index out of range, undefined name} x raise site {statement, in 如果, in 每当, in 遍历 over a list, in 遍历 over a dictionary, in a constructor, inside a handler, statement with every caller's call inside a 遍历 loop of the caller} x call depth 0..D x handler placement per level {none, matching, non-matching, non-matching+matching} x handler body {no 输出, 输出 v, raises again, no 输出 but a valued expression as last statement, calls a method that raises and handles an exception of its own and then goes on using 其} x level 1 plain method / method of an object x innermost level in the main file / in an imported module; every program runs follow-up probes after the handled call: caller locals, caller's 其, a callee local that must be gone (guarded read), a second call of the same chain, final result; on in-memory runs also the VM's call depth and scope depth. Oracle: reference interpreter. Distinct by construction; non-trivial = at least one handler present.",
+		Rule:  "E1 exhaustive over the product: raise kind {抛出异常, 抛出 custom type, failing built-in (取样 out of range), failing library call (解析JSON), 1 / 0, index out of range, undefined name} x raise site {statement, in 如果, in 每当, in 遍历 over a list, in 遍历 over a dictionary, in a constructor, inside a handler, statement with every caller's call inside a 遍历 loop of the caller} x call depth 0..D x handler placement per level {none, matching, non-matching, non-matching+matching} x handler body {no 输出, 输出 v, raises again, no 输出 but a valued expression as last statement, calls a method that raises and handles an exception of its own and then goes on using 其} x level 1 plain method / method of an object x innermost level in the main file / in an imported module; every program runs follow-up probes after the handled call: caller locals, caller's 其, a callee local that must be gone (guarded read), a second call of the same chain, final result; on in-memory runs also the VM's call depth and scope depth. Plus, for every raise kind, a method that raises and handles N = 1, 2, 10, 100, 1000, 5000, 20000 times in one run: afterwards ordinary expressions have their values, every block has ended, no call is left open. Oracle: reference interpreter. Distinct by construction; non-trivial = at least one handler present.",
 		Assumptions: []string{
 			"reference semantics from manual ch.4: runtime faults and failing built-ins are exceptions of class 异常; handler value is its 输出 or 空",
 			"the message text of faults / built-in failures is not compared (其内容 is displayed only for 抛出 with a known message)",
@@ -479,11 +527,34 @@ func init() {
 				}
 			}
 			c.Bound("call_depth", D)
+			// repetition family: N faults raised and handled in one run, for every raise kind
+			c.Describe = func(idx int64) json.RawMessage {
+				k := idx - total
+				return mc.J(c09Case{Repeat: c09RepeatCounts[k%int64(len(c09RepeatCounts))], P: c09Params{Kind: int(k / int64(len(c09RepeatCounts)))}})
+			}
+			for k := int64(0); k < int64(len(c09Kinds)*len(c09RepeatCounts)); k++ {
+				if !c.Mine(total + k) {
+					continue
+				}
+				c.CaseIdx(total + k)
+				if f := c09Repeat(int(k/int64(len(c09RepeatCounts))), c09RepeatCounts[k%int64(len(c09RepeatCounts))]); f != nil {
+					c.Fail(*f)
+				}
+				c.Eval(true)
+				c.Stat("repetition_programs", 1)
+			}
+			c.Bound("handled_faults_in_one_run", c09RepeatCounts)
 		},
 		Replay: func(c *mc.Ctx, raw json.RawMessage) {
 			var cs c09Case
 			if err := json.Unmarshal(raw, &cs); err != nil {
 				c.Fail(mc.Failure{Kind: "crash", Observed: err.Error()})
+				return
+			}
+			if cs.Repeat > 0 {
+				if f := c09Repeat(cs.P.Kind, cs.Repeat); f != nil {
+					c.Fail(*f)
+				}
 				return
 			}
 			if f := c09Check(cs.P); f != nil {
